@@ -1332,6 +1332,166 @@ example : let m := M.off "m/f_offset" (M.add (M.base .odijkD ["m/Lp", "m/Lc", "m
   subst f3 f4
   exact ⟨(leaf_der_ok _).1 _ _ _ _ _ (by norm_num) (by norm_num) (by norm_num) (by norm_num), (leaf_der_ok _).2.2.1 _ _⟩
 
+/-! ## Deepening round D: `generate_conditions` / `Fit._calculate_jacobian` — nothing lost, shape of the result -/
+
+
+theorem nodup_eraseDups_aux {κ : Type} [BEq κ] [LawfulBEq κ] : ∀ (n : Nat) (l : List κ), l.length ≤ n → l.eraseDups.Nodup
+  | 0, l, h => by
+    have : l = [] := List.length_eq_zero_iff.mp (by omega)
+    subst this; simp
+  | n + 1, [], _ => by simp
+  | n + 1, a :: as, h => by
+    rw [List.eraseDups_cons]
+    refine List.nodup_cons.mpr ⟨?_, nodup_eraseDups_aux n _ ?_⟩
+    · intro hm
+      rw [List.mem_eraseDups] at hm
+      have := (List.mem_filter.mp hm).2
+      simp at this
+    · have := List.length_filter_le (fun b => !b == a) as
+      simp only [List.length_cons] at h
+      omega
+
+theorem nodup_eraseDups {κ : Type} [BEq κ] [LawfulBEq κ] (l : List κ) : l.eraseDups.Nodup :=
+  nodup_eraseDups_aux l.length l (Nat.le_refl _)
+
+theorem filter_or_perm {δ : Type} (p q : δ → Bool) (hpq : ∀ d, ¬(p d = true ∧ q d = true)) :
+    ∀ l : List δ, (l.filter fun d => p d || q d).Perm (l.filter p ++ l.filter q)
+  | [] => List.Perm.refl _
+  | d :: l => by
+    have ih := filter_or_perm p q hpq l
+    cases hp : p d <;> cases hq : q d
+    · simp only [List.filter_cons, hp, hq, Bool.or_self, Bool.false_eq_true, if_false]; exact ih
+    · simp only [List.filter_cons, hp, hq, Bool.or_true, Bool.false_eq_true, if_false, if_true]
+      exact (List.Perm.cons d ih).trans List.perm_middle.symm
+    · simp only [List.filter_cons, hp, hq, Bool.or_false, Bool.false_eq_true, if_false, if_true, List.cons_append]
+      exact List.Perm.cons d ih
+    · exact absurd ⟨hp, hq⟩ (hpq d)
+
+theorem groups_perm {δ κ : Type} [BEq κ] [LawfulBEq κ] (key : δ → κ) (ds : List δ) :
+    ∀ ks : List κ, ks.Nodup → (ks.flatMap fun k => ds.filter fun d => key d == k).Perm (ds.filter fun d => ks.contains (key d))
+  | [], _ => by simp
+  | k :: ks, h => by
+    obtain ⟨hk, hks⟩ := List.nodup_cons.mp h
+    have ih := groups_perm key ds ks hks
+    rw [List.flatMap_cons]
+    have e : (fun d => (k :: ks).contains (key d)) = fun d => (key d == k) || ks.contains (key d) := by
+      funext d; rw [List.contains_cons]
+    rw [e]
+    refine (List.Perm.append_left _ ih).trans (filter_or_perm _ _ ?_ ds).symm
+    intro d ⟨h1, h2⟩
+    have : key d = k := by simpa using h1
+    rw [this] at h2
+    exact hk (by simpa using h2)
+
+/-- `generate_conditions` loses and duplicates nothing: the data sets of all conditions together are a permutation of
+    the data sets of the model (so the fit Jacobian has exactly one block of rows per data set) -/
+theorem groupConditions_perm (ds : List (DataSet ℝ)) : (groupConditions ds).flatten.Perm ds := by
+  unfold groupConditions
+  simp only []
+  rw [← List.flatMap_def]
+  have h := groups_perm (fun d : DataSet ℝ => d.trans.map (·.key)) ds _
+    (nodup_eraseDups (ds.map fun d : DataSet ℝ => d.trans.map (·.key)))
+  refine h.trans ?_
+  rw [List.filter_eq_self.mpr]
+  intro d hd
+  rw [List.contains_iff_mem, List.mem_eraseDups]
+  exact List.mem_map.mpr ⟨d, hd, rfl⟩
+
+/-- every condition collects data sets with one and the same condition string -/
+theorem groupConditions_same_key (ds : List (DataSet ℝ)) (grp : List (DataSet ℝ)) (hg : grp ∈ groupConditions ds)
+    (d1 d2 : DataSet ℝ) (h1 : d1 ∈ grp) (h2 : d2 ∈ grp) : d1.trans.map (·.key) = d2.trans.map (·.key) := by
+  unfold groupConditions at hg
+  simp only [] at hg
+  obtain ⟨k, _, rfl⟩ := List.mem_map.mp hg
+  have a := (List.mem_filter.mp h1).2
+  have b := (List.mem_filter.mp h2).2
+  simp only [beq_iff_eq] at a b
+  rw [a, b]
+
+theorem withSols_length {α : Type} : ∀ (xs : List α) (ss : List (List α)), (withSols xs ss).length = xs.length
+  | [], _ => by simp [withSols]
+  | x :: xs, [] => by simp [withSols, withSols_length xs []]
+  | x :: xs, s :: ss => by simp [withSols, withSols_length xs ss]
+
+theorem mapM_id_some {β : Type} : ∀ (l : List (Option β)) (rows : List β), l.mapM id = some rows → l = rows.map some
+  | [], rows, h => by
+    simp at h; subst h; rfl
+  | o :: l, rows, h => by
+    rw [List.mapM_cons] at h
+    cases o with
+    | none => simp at h
+    | some b =>
+      cases hl : l.mapM id with
+      | none => simp [hl] at h
+      | some bs =>
+        simp [hl] at h
+        subst h
+        rw [List.map_cons, mapM_id_some l bs hl]
+
+theorem flatMap_flatMap_flatten {δ β : Type} (f : δ → List β) : ∀ L : List (List δ),
+    (L.flatMap fun grp => grp.flatMap f) = L.flatten.flatMap f
+  | [] => rfl
+  | grp :: L => by
+    rw [List.flatMap_cons, List.flatten_cons, List.flatMap_append, flatMap_flatMap_flatten f L]
+
+theorem length_flatMap_congr {δ β γ : Type} (f : δ → List β) (g : δ → List γ) :
+    ∀ l : List δ, (∀ a ∈ l, (f a).length = (g a).length) → (l.flatMap f).length = (l.flatMap g).length
+  | [], _ => rfl
+  | a :: l, h => by
+    rw [List.flatMap_cons, List.flatMap_cons, List.length_append, List.length_append, h a List.mem_cons_self,
+      length_flatMap_congr f g l (fun b hb => h b (List.mem_cons_of_mem _ hb))]
+
+theorem jacRowS_length (fixed : Bool) (m : M) (trans : List (Tr ℝ)) (names : List String) (g : List ℝ) (x : ℝ)
+    (sols row : List ℝ) (h : jacRowS fixed m trans names g x sols = some row) : row.length = g.length := by
+  rw [fit_row_sols_unfold] at h
+  simp only [Option.bind_eq_bind, Option.bind_eq_some_iff] at h
+  obtain ⟨pl, _, j, _, sens, _, h⟩ := h
+  have := Option.some.inj h
+  subst this
+  cases fixed
+  · simp only [Bool.false_eq_true, if_false, scatterOp_length, List.length_map]
+  · simp only [if_true, scatterAcc_length, List.length_map]
+
+/-- `Fit._calculate_jacobian`, shape: the columns are the global parameter names of `_build_fit`, one row per data
+    point of every data set (conditions regroup the data sets of a model but lose / duplicate none:
+    `groupConditions_perm`), every row as long as the parameter vector -/
+theorem fitJacobian_shape (fixed : Bool) (models : List (M × List (DataSet ℝ))) (g : List ℝ) (names : List String)
+    (rows : List (List ℝ)) (h : fitJacobian fixed models g = some (names, rows)) :
+    names = globalNames models ∧ names.length = g.length ∧
+    rows.length = (models.flatMap fun md => md.2.flatMap fun d => d.xs).length ∧
+    ∀ row ∈ rows, row.length = g.length := by
+  unfold fitJacobian at h
+  simp only [Option.bind_eq_bind] at h
+  by_cases hlen : (globalNames models).length = g.length
+  · simp only [hlen, bne_self_eq_false, Bool.false_eq_true, if_false, Option.bind_eq_some_iff] at h
+    obtain ⟨rows', hrows, h⟩ := h
+    have e := Option.some.inj h
+    simp only [Prod.mk.injEq] at e
+    obtain ⟨e1, e2⟩ := e
+    subst e1 e2
+    have hl := mapM_id_some _ _ hrows
+    refine ⟨rfl, hlen, ?_, ?_⟩
+    · have := congrArg List.length hl
+      rw [List.length_map] at this
+      rw [← this]
+      apply length_flatMap_congr
+      intro md _
+      have hp := groupConditions_perm md.2
+      rw [flatMap_flatMap_flatten, (hp.flatMap_right _).length_eq]
+      apply length_flatMap_congr
+      intro d _
+      rw [List.length_map, DataSet.points, withSols_length]
+    · intro row hrow
+      have : some row ∈ rows'.map some := List.mem_map.mpr ⟨row, hrow, rfl⟩
+      rw [← hl] at this
+      obtain ⟨md, _, hm⟩ := List.mem_flatMap.mp this
+      obtain ⟨grp, _, hm⟩ := List.mem_flatMap.mp hm
+      obtain ⟨d, _, hm⟩ := List.mem_flatMap.mp hm
+      obtain ⟨xs, _, hm⟩ := List.mem_map.mp hm
+      exact jacRowS_length _ _ _ _ _ _ _ _ hm
+  · have : ((globalNames models).length != g.length) = true := by simpa using hlen
+    simp [this] at h
+
 /-! ## Deepening round D: eFJC and tWLC Jacobian rows w.r.t. the parameters -/
 
 /-- the four rows of `efjc_distance_jac` are `∂/∂L_p, ∂/∂L_c, ∂/∂S_t, ∂/∂kT` of `efjc_distance` below the code's
@@ -1376,5 +1536,420 @@ theorem twlc_distance_jac (f Lp Lc St C g0 g1 Fc kT : ℝ) (hf : 0 < f) (hLp : 0
 example : (30.6:ℝ) < 40 ∧ (440:ℝ) * 1500 - (-637 + 17 * 40) * (-637 + 17 * 40) ≠ 0 ∧ (-637:ℝ) + 17 * 40 ≠ 0 ∧
     (20:ℝ) < 30.6 ∧ (440:ℝ) * 1500 - (-637 + 17 * 30.6) * (-637 + 17 * 30.6) ≠ 0 ∧ (-637:ℝ) + 17 * 30.6 ≠ 0 := by
   norm_num
+
+/-! ## Deepening round D: compositions without inversion — `M.jac` is the gradient of `M.val` (structural induction) -/
+
+
+section picklemmas
+variable {β : Type}
+
+theorem pick_cons (i : Nat) (idx : List Nat) (v : List β) :
+    pick (i :: idx) v = (do let a ← v[i]?; let as ← pick idx v; pure (a :: as)) := by
+  unfold pick
+  rw [List.mapM_cons]
+
+theorem pick_set_not_mem (idx : List Nat) (p : List β) (k : Nat) (v : β) (h : k ∉ idx) :
+    pick idx (p.set k v) = pick idx p := by
+  induction idx with
+  | nil => rfl
+  | cons i idx ih =>
+    have hik : k ≠ i := fun e => h (e ▸ List.mem_cons_self)
+    rw [pick_cons, pick_cons, ih (fun hm => h (List.mem_cons_of_mem _ hm)), List.getElem?_set_ne hik]
+
+theorem pick_length (idx : List Nat) (p q : List β) (h : pick idx p = some q) : q.length = idx.length := by
+  induction idx generalizing q with
+  | nil => unfold pick at h; simp at h; subst h; rfl
+  | cons i idx ih =>
+    rw [pick_cons] at h
+    simp only [Option.bind_eq_bind, Option.bind_eq_some_iff, Option.pure_def] at h
+    obtain ⟨a, _, as, h2, h3⟩ := h
+    have := Option.some.inj h3
+    subst this
+    rw [List.length_cons, List.length_cons, ih as h2]
+
+theorem pick_getElem? (idx : List Nat) (p q : List β) (h : pick idx p = some q) (j i : Nat) (hj : idx[j]? = some i) :
+    q[j]? = p[i]? := by
+  induction idx generalizing q j with
+  | nil => simp at hj
+  | cons i0 idx ih =>
+    rw [pick_cons] at h
+    simp only [Option.bind_eq_bind, Option.bind_eq_some_iff, Option.pure_def] at h
+    obtain ⟨a, h1, as, h2, h3⟩ := h
+    have := Option.some.inj h3
+    subst this
+    cases j with
+    | zero =>
+      simp only [List.getElem?_cons_zero, Option.some.injEq] at hj
+      subst hj
+      rw [List.getElem?_cons_zero, h1]
+    | succ j =>
+      rw [List.getElem?_cons_succ] at hj
+      rw [List.getElem?_cons_succ]
+      exact ih as h2 j hj
+
+theorem pick_set_mem (idx : List Nat) (hnd : idx.Nodup) (p q : List β) (k : Nat) (v : β) (j : Nat)
+    (hj : idx[j]? = some k) (hp : pick idx p = some q) (hk : k < p.length) :
+    pick idx (p.set k v) = some (q.set j v) := by
+  induction idx generalizing q j with
+  | nil => simp at hj
+  | cons i idx ih =>
+    obtain ⟨hi, hnd'⟩ := List.nodup_cons.mp hnd
+    rw [pick_cons] at hp
+    simp only [Option.bind_eq_bind, Option.bind_eq_some_iff, Option.pure_def] at hp
+    obtain ⟨a, h1, as, h2, h3⟩ := hp
+    have := Option.some.inj h3
+    subst this
+    cases j with
+    | zero =>
+      simp only [List.getElem?_cons_zero, Option.some.injEq] at hj
+      subst hj
+      rw [pick_cons, pick_set_not_mem idx p i v hi, h2, List.getElem?_set_self hk]
+      rfl
+    | succ j =>
+      rw [List.getElem?_cons_succ] at hj
+      have hmem : k ∈ idx := List.mem_of_getElem? hj
+      have hik : k ≠ i := fun e => hi (e ▸ hmem)
+      rw [pick_cons, ih hnd' as j hj h2, List.getElem?_set_ne hik, h1]
+      rfl
+end picklemmas
+
+theorem routedSum_not_mem (idx : List Nat) (vals : List ℝ) (k : Nat) (h : k ∉ idx) : routedSum idx vals k = 0 := by
+  unfold routedSum
+  have : (idx.zip vals).filter (fun iv => iv.1 == k) = [] := by
+    rw [List.filter_eq_nil_iff]
+    intro iv hiv
+    have := (List.of_mem_zip hiv).1
+    intro e
+    have e' : iv.1 = k := by simpa using e
+    exact h (e' ▸ this)
+  rw [this]; rfl
+
+theorem routedSum_nodup (idx : List Nat) (hnd : idx.Nodup) (vals : List ℝ) (k j : Nat) (hj : idx[j]? = some k) :
+    routedSum idx vals k = vals.getD j 0 := by
+  induction idx generalizing vals j with
+  | nil => simp at hj
+  | cons i idx ih =>
+    obtain ⟨hi, hnd'⟩ := List.nodup_cons.mp hnd
+    cases vals with
+    | nil => simp [routedSum]
+    | cons a vals =>
+      cases j with
+      | zero =>
+        simp only [List.getElem?_cons_zero, Option.some.injEq] at hj
+        subst hj
+        have h0 := routedSum_not_mem idx vals i hi
+        unfold routedSum at h0 ⊢
+        simp only [List.zip_cons_cons, List.filter_cons, beq_self_eq_true, if_true, List.map_cons, List.sum_cons, h0,
+          List.getD_cons_zero, add_zero]
+      | succ j =>
+        rw [List.getElem?_cons_succ] at hj
+        have hmem : k ∈ idx := List.mem_of_getElem? hj
+        have hik : i ≠ k := fun e => hi (e ▸ hmem)
+        have h1 := ih hnd' vals j hj
+        unfold routedSum at h1 ⊢
+        have : (i == k) = false := by simpa using hik
+        simp only [List.zip_cons_cons, List.filter_cons, this, Bool.false_eq_true, if_false, h1, List.getD_cons_succ]
+
+/-- `M.WF` plus: the offset parameter of a `subtract_independent_offset()` is not a parameter of the wrapped model
+    (pylake names it `<model>/<x>_offset`) -/
+def M.WF2 : M → Prop
+  | .base _ names => names.Nodup
+  | .add l r => l.WF2 ∧ r.WF2
+  | .off name m => m.WF2 ∧ name ∉ m.params
+  | .inv m => m.WF2
+
+theorem M.WF2.wf : (m : M) → m.WF2 → m.WF
+  | .base _ _, h => h
+  | .add l r, h => ⟨M.WF2.wf l h.1, M.WF2.wf r h.2⟩
+  | .off _ m, h => M.WF2.wf m h.1
+  | .inv m, h => M.WF2.wf m h
+
+/-- what it means that `J` is the gradient of the tree's model function w.r.t. the parameter vector at `p`:
+    entry `i` is the derivative of `v ↦ M.val x (p with entry i replaced by v)` at `v = p[i]` -/
+def JacSound (m : M) (x : ℝ) (p J : List ℝ) : Prop :=
+  (∃ c, m.val x p [] = some c) ∧
+  ∀ i, i < p.length → ∃ G : ℝ → ℝ, (∀ v, m.val x (p.set i v) [] = some (G v)) ∧ HasDerivAt G (J.getD i 0) (p.getD i 0)
+
+/-- every leaf, at the abscissa and local parameters at which the tree evaluates it, has the gradient `baseJac`
+    returns (and, under an offset, the derivative `baseDer` returns) -/
+def LeafJacOK : M → ℝ → List ℝ → Prop
+  | .base k _, x, p => ∀ J, baseJac k x p = some J → (∃ c, baseVal k x p = some c) ∧
+      ∀ i, i < p.length → ∃ G : ℝ → ℝ, (∀ v, baseVal k x (p.set i v) = some (G v)) ∧ HasDerivAt G (J.getD i 0) (p.getD i 0)
+  | .add l r, x, p => ∀ li ri pl pr, subIdx (M.add l r).params l.params = some li →
+      subIdx (M.add l r).params r.params = some ri → pick li p = some pl → pick ri p = some pr →
+      LeafJacOK l x pl ∧ LeafJacOK r x pr
+  | .off name m, x, p => ∀ mi oi o pm, subIdx (M.off name m).params m.params = some mi →
+      indexOf (M.off name m).params name = some oi → p[oi]? = some o → pick mi p = some pm →
+      LeafJacOK m (x - o) pm ∧ LeafDerOK m (x - o) pm
+  | .inv _, _, _ => True
+
+theorem getD_of_getElem?_eq {a b : List ℝ} {i j : Nat} (h : a[i]? = b[j]?) : a.getD i 0 = b.getD j 0 := by
+  rw [List.getD_eq_getElem?_getD, List.getD_eq_getElem?_getD, h]
+
+/-- one side of a composition: the parameters of the sub-model are picked out of `p` by a duplicate-free index list;
+    varying entry `i` of `p` varies at most one entry of the sub-model's vector, and the derivative is what the
+    scatter routes to `i` -/
+theorem routed_side (sub : M) (idx : List Nat) (hnd : idx.Nodup) (p q jq : List ℝ) (x : ℝ) (hpick : pick idx p = some q)
+    (hs : JacSound sub x q jq) (i : Nat) (hi : i < p.length) :
+    ∃ G : ℝ → ℝ, (∀ v, ∃ q', pick idx (p.set i v) = some q' ∧ sub.val x q' [] = some (G v)) ∧
+      HasDerivAt G (routedSum idx jq i) (p.getD i 0) := by
+  by_cases hmem : i ∈ idx
+  · obtain ⟨j, hj⟩ := List.mem_iff_getElem?.mp hmem
+    have hjlt : j < q.length := by
+      rw [pick_length idx p q hpick]
+      exact (List.getElem?_eq_some_iff.mp hj).1
+    obtain ⟨G, hG, hD⟩ := hs.2 j hjlt
+    refine ⟨G, fun v => ⟨q.set j v, pick_set_mem idx hnd p q i v j hj hpick hi, hG v⟩, ?_⟩
+    rw [routedSum_nodup idx hnd jq i j hj, ← getD_of_getElem?_eq (pick_getElem? idx p q hpick j i hj)]
+    exact hD
+  · obtain ⟨c, hc⟩ := hs.1
+    refine ⟨fun _ => c, fun v => ⟨q, by rw [pick_set_not_mem idx p i v hmem]; exact hpick, hc⟩, ?_⟩
+    rw [routedSum_not_mem idx jq i hmem]
+    exact hasDerivAt_const _ _
+
+/-- `CompositeModel.jacobian` / `SubtractIndependentOffset.jacobian`, end to end and semantically: for a composition
+    without numerical inversion whose leaves have distinct parameter names, the list `M.jac` returns is the GRADIENT
+    of the composition's model function `M.val` w.r.t. the parameter vector — entry by entry a `HasDerivAt` —
+    provided the leaves' Jacobians / derivatives are (structural induction; shared parameters add, the offset's
+    entry is `−f'`). -/
+theorem tree_jacobian_sound : (m : M) → (x : ℝ) → (p J : List ℝ) → m.countInv = 0 → m.WF2 →
+    p.length = m.params.length → LeafJacOK m x p → m.jac x p [] = some J → JacSound m x p J
+  | .base k names, x, p, J, _, _, _, hl, hj => by
+    rw [M.jac] at hj
+    obtain ⟨hc, hG⟩ := hl J hj
+    refine ⟨?_, fun i hi => ?_⟩
+    · obtain ⟨c, hc⟩ := hc
+      exact ⟨c, by rw [M.val]; exact hc⟩
+    · obtain ⟨G, hG1, hG2⟩ := hG i hi
+      exact ⟨G, fun v => by rw [M.val]; exact hG1 v, hG2⟩
+  | .add l r, x, p, J, hc, hwf, hlen, hl, hj => by
+    simp only [M.countInv] at hc
+    have hcl : l.countInv = 0 := by omega
+    have hcr : r.countInv = 0 := by omega
+    obtain ⟨li, ri, e1, e2, ll, lr, ndl, ndr, _, _⟩ := composite_indices_established l r (M.WF2.wf l hwf.1) (M.WF2.wf r hwf.2)
+    rw [composite_jacobian_unfold] at hj
+    simp only [Option.bind_eq_bind, Option.bind_eq_some_iff, List.take_nil, List.drop_nil, e1, e2, Option.some.injEq,
+      exists_eq_left'] at hj
+    obtain ⟨pl, h3, pr, h4, jl, h5, jr, h6, h7⟩ := hj
+    obtain ⟨okl, okr⟩ := hl li ri pl pr e1 e2 h3 h4
+    have sl := tree_jacobian_sound l x pl jl hcl hwf.1 (by rw [pick_length li p pl h3, ll]) okl h5
+    have sr := tree_jacobian_sound r x pr jr hcr hwf.2 (by rw [pick_length ri p pr h4, lr]) okr h6
+    subst h7
+    refine ⟨?_, fun i hi => ?_⟩
+    · obtain ⟨cl, hcl'⟩ := sl.1
+      obtain ⟨cr, hcr'⟩ := sr.1
+      refine ⟨cl + cr, ?_⟩
+      rw [M.val]
+      simp only [Option.bind_eq_bind, List.take_nil, List.drop_nil, e1, e2, h3, h4, hcl', hcr', Option.bind_some]
+    · obtain ⟨Gl, hGl, hDl⟩ := routed_side l li ndl p pl jl x h3 sl i hi
+      obtain ⟨Gr, hGr, hDr⟩ := routed_side r ri ndr p pr jr x h4 sr i hi
+      refine ⟨fun v => Gl v + Gr v, fun v => ?_, ?_⟩
+      · obtain ⟨pl', a1, a2⟩ := hGl v
+        obtain ⟨pr', b1, b2⟩ := hGr v
+        rw [M.val]
+        simp only [Option.bind_eq_bind, List.take_nil, List.drop_nil, e1, e2, a1, a2, b1, b2, Option.bind_some]
+      · have hJ := composite_jacobian p li ri jl jr ndl ndr i hi
+        rw [List.getD_eq_getElem?_getD, hJ]
+        exact hDl.add hDr
+  | .off name m, x, p, J, hc, hwf, hlen, hl, hj => by
+    simp only [M.countInv] at hc
+    obtain ⟨mi', hs1, hs2, hs3, hs4, hs5⟩ := subIdx_spec (M.off name m).params m.params
+      (by
+        intro n hn; simp only [M.params]
+        by_cases h : n = name
+        · subst h; exact List.mem_cons_self
+        · exact List.mem_cons_of_mem _ (List.mem_filter.mpr ⟨hn, by simp [h]⟩))
+      (M.params_nodup m (M.WF2.wf m hwf.1))
+    rw [offset_jacobian_unfold] at hj
+    simp only [Option.bind_eq_bind, Option.bind_eq_some_iff, hs1, Option.some.injEq, exists_eq_left'] at hj
+    obtain ⟨oi, h2, o, h3, pm, h4, jm, h5, dm, h6, h7⟩ := hj
+    obtain ⟨okj, okd⟩ := hl mi' oi o pm hs1 h2 h3 h4
+    have hoi : oi < p.length := hlen ▸ (indexOf_eq_some h2).1
+    have hnotin : oi ∉ mi' := by
+      intro hm
+      obtain ⟨n, hn, hni⟩ := hs5 oi hm
+      exact hwf.2 ((indexOf_inj hni h2) ▸ hn)
+    have sm := tree_jacobian_sound m (x - o) pm jm hc hwf.1 (by rw [pick_length mi' p pm h4, hs2]) okj h5
+    obtain ⟨Fm, hFm, hDm⟩ := tree_derivative_sound m (x - o) pm dm hc okd h6
+    subst h7
+    refine ⟨?_, fun i hi => ?_⟩
+    · obtain ⟨c, hc'⟩ := sm.1
+      refine ⟨c, ?_⟩
+      rw [M.val]
+      simp only [Option.bind_eq_bind, hs1, h2, h3, h4, hc', Option.bind_some]
+    · have hJ := offset_jacobian p mi' jm oi dm hs3 hoi i hi
+      rw [List.getD_eq_getElem?_getD, hJ]
+      by_cases hio : i = oi
+      · subst hio
+        refine ⟨fun v => Fm (x - v), fun v => ?_, ?_⟩
+        · rw [M.val]
+          simp only [Option.bind_eq_bind, hs1, h2, List.getElem?_set_self hoi, pick_set_not_mem mi' p i v hnotin, h4,
+            hFm (x - v), Option.bind_some]
+        · have : p.getD i 0 = o := by rw [List.getD_eq_getElem?_getD, h3]; rfl
+          rw [this, if_pos rfl]
+          exact (offset_chain_rule Fm dm x o hDm).1
+      · obtain ⟨G, hG, hD⟩ := routed_side m mi' hs3 p pm jm (x - o) h4 sm i hi
+        refine ⟨G, fun v => ?_, ?_⟩
+        · obtain ⟨pm', a1, a2⟩ := hG v
+          rw [M.val]
+          simp only [Option.bind_eq_bind, hs1, h2, List.getElem?_set_ne hio, h3, a1, a2, Option.bind_some]
+        · rw [if_neg hio]
+          exact hD
+  | .inv m, x, p, J, hc, _, _, _, _ => by
+    simp only [M.countInv] at hc
+    omega
+
+/-- the leaves meet `LeafJacOK` inside their validity ranges (closed forms, offsets, the four cubic models off the band) -/
+theorem leaf_jac_ok (names : List String) :
+    (∀ f Lp Lc St kT : ℝ, 0 < f → 0 < Lp → 0 < kT → 0 < St → LeafJacOK (.base .odijkD names) f [Lp, Lc, St, kT]) ∧
+    (∀ d Lp Lc kT : ℝ, 0 < Lp → 0 < Lc → d < Lc → LeafJacOK (.base .msF names) d [Lp, Lc, kT]) ∧
+    (∀ x o : ℝ, LeafJacOK (.base .offset names) x [o]) ∧
+    (∀ f Lp Lc St kT : ℝ, 0 < f → 0 < Lp → 0 < kT → 0 < St → f * (2 * Lp / kT) < 300 →
+      LeafJacOK (.base .efjcD names) f [Lp, Lc, St, kT]) := by
+  refine ⟨?_, ?_, ?_, ?_⟩
+  · intro f Lp Lc St kT h1 h2 h3 h4 J hJ
+    cases hJ
+    refine ⟨⟨_, rfl⟩, fun i hi => ?_⟩
+    have hr := odijk_distance_jac f Lp Lc St kT h1 h2 h3 h4
+    rcases i with _ | _ | _ | _ | i
+    · exact ⟨fun v => odijkDistance f v Lc St kT, fun _ => rfl, hr.2.1⟩
+    · exact ⟨fun v => odijkDistance f Lp v St kT, fun _ => rfl, hr.2.2.1⟩
+    · exact ⟨fun v => odijkDistance f Lp Lc v kT, fun _ => rfl, hr.2.2.2.1⟩
+    · exact ⟨fun v => odijkDistance f Lp Lc St v, fun _ => rfl, hr.2.2.2.2⟩
+    · simp only [List.length_cons, List.length_nil] at hi; omega
+  · intro d Lp Lc kT h1 h2 h3 J hJ
+    cases hJ
+    refine ⟨⟨_, rfl⟩, fun i hi => ?_⟩
+    have hr := ms_force_jac d Lp Lc kT h1 h2 h3
+    rcases i with _ | _ | _ | i
+    · exact ⟨fun v => msForce d v Lc kT, fun _ => rfl, hr.2.1⟩
+    · exact ⟨fun v => msForce d Lp v kT, fun _ => rfl, hr.2.2.1⟩
+    · exact ⟨fun v => msForce d Lp Lc v, fun _ => rfl, hr.2.2.2⟩
+    · simp only [List.length_cons, List.length_nil] at hi; omega
+  · intro x o J hJ
+    cases hJ
+    refine ⟨⟨_, rfl⟩, fun i hi => ?_⟩
+    rcases i with _ | i
+    · exact ⟨fun v => offsetVal x v, fun _ => rfl, offset_jac x o⟩
+    · simp only [List.length_cons, List.length_nil] at hi; omega
+  · intro f Lp Lc St kT h1 h2 h3 h4 h5 J hJ
+    cases hJ
+    refine ⟨⟨_, rfl⟩, fun i hi => ?_⟩
+    have hr := efjc_distance_jac f Lp Lc St kT h1 h2 h3 h4 h5
+    rcases i with _ | _ | _ | _ | i
+    · exact ⟨fun v => efjcDistance f v Lc St kT, fun _ => rfl, hr.2.1⟩
+    · exact ⟨fun v => efjcDistance f Lp v St kT, fun _ => rfl, hr.2.2.1⟩
+    · exact ⟨fun v => efjcDistance f Lp Lc v kT, fun _ => rfl, hr.2.2.2.1⟩
+    · exact ⟨fun v => efjcDistance f Lp Lc St v, fun _ => rfl, hr.2.2.2.2⟩
+    · simp only [List.length_cons, List.length_nil] at hi; omega
+
+/-- … and the four cubic models, both branches, off the band (through `X.jac_*_hasDerivAt`) -/
+theorem leaf_jac_ok_cubic (names : List String) :
+    (∀ d Lp Lc St kT : ℝ, 0 < Lp → 0 < Lc → 0 < St → 0 < kT →
+      cubDet (OF.a d Lp Lc St kT) (OF.b d Lp Lc St kT) (OF.c d Lp Lc St kT) ≠ 0 → regularised (OF.a d Lp Lc St kT) (OF.b d Lp Lc St kT) (OF.c d Lp Lc St kT) = false →
+      LeafJacOK (.base .odijkF names) d [Lp, Lc, St, kT]) ∧
+    (∀ f Lp Lc kT : ℝ, 0 < Lp → 0 < Lc → 0 < kT →
+      cubDet (WD.a f Lp Lc kT) (WD.b f Lp Lc kT) (WD.c f Lp Lc kT) ≠ 0 → regularised (WD.a f Lp Lc kT) (WD.b f Lp Lc kT) (WD.c f Lp Lc kT) = false →
+      LeafJacOK (.base .msD names) f [Lp, Lc, kT]) ∧
+    (∀ d Lp Lc St kT : ℝ, 0 < Lp → 0 < Lc → 0 < St → 0 < kT →
+      cubDet (EF.a d Lp Lc St kT) (EF.b d Lp Lc St kT) (EF.c d Lp Lc St kT) ≠ 0 → regularised (EF.a d Lp Lc St kT) (EF.b d Lp Lc St kT) (EF.c d Lp Lc St kT) = false →
+      LeafJacOK (.base .emsF names) d [Lp, Lc, St, kT]) ∧
+    (∀ f Lp Lc St kT : ℝ, 0 < Lp → 0 < Lc → 0 < St → 0 < kT →
+      cubDet (ED.a f Lp Lc St kT) (ED.b f Lp Lc St kT) (ED.c f Lp Lc St kT) ≠ 0 → regularised (ED.a f Lp Lc St kT) (ED.b f Lp Lc St kT) (ED.c f Lp Lc St kT) = false →
+      LeafJacOK (.base .emsD names) f [Lp, Lc, St, kT]) := by
+  refine ⟨?_, ?_, ?_, ?_⟩
+  · intro d Lp Lc St kT h1 h2 h3 h4 hd hr J hJ
+    cases hJ
+    refine ⟨⟨_, rfl⟩, fun i hi => ?_⟩
+    rcases i with _ | _ | _ | _ | i
+    · exact ⟨fun v => OF.val d v Lc St kT, fun _ => rfl, OF.jac_Lp_hasDerivAt d Lp Lc St kT h1 h2 h3 h4 hd hr⟩
+    · exact ⟨fun v => OF.val d Lp v St kT, fun _ => rfl, OF.jac_Lc_hasDerivAt d Lp Lc St kT h1 h2 h3 h4 hd hr⟩
+    · exact ⟨fun v => OF.val d Lp Lc v kT, fun _ => rfl, OF.jac_St_hasDerivAt d Lp Lc St kT h1 h2 h3 h4 hd hr⟩
+    · exact ⟨fun v => OF.val d Lp Lc St v, fun _ => rfl, OF.jac_kT_hasDerivAt d Lp Lc St kT h1 h2 h3 h4 hd hr⟩
+    · simp only [List.length_cons, List.length_nil] at hi; omega
+  · intro f Lp Lc kT h1 h2 h3 hd hr J hJ
+    cases hJ
+    refine ⟨⟨_, rfl⟩, fun i hi => ?_⟩
+    rcases i with _ | _ | _ | i
+    · exact ⟨fun v => WD.val f v Lc kT, fun _ => rfl, WD.jac_Lp_hasDerivAt f Lp Lc kT h1 h2 h3 hd hr⟩
+    · exact ⟨fun v => WD.val f Lp v kT, fun _ => rfl, WD.jac_Lc_hasDerivAt f Lp Lc kT h1 h2 h3 hd hr⟩
+    · exact ⟨fun v => WD.val f Lp Lc v, fun _ => rfl, WD.jac_kT_hasDerivAt f Lp Lc kT h1 h2 h3 hd hr⟩
+    · simp only [List.length_cons, List.length_nil] at hi; omega
+  · intro d Lp Lc St kT h1 h2 h3 h4 hd hr J hJ
+    cases hJ
+    refine ⟨⟨_, rfl⟩, fun i hi => ?_⟩
+    rcases i with _ | _ | _ | _ | i
+    · exact ⟨fun v => EF.val d v Lc St kT, fun _ => rfl, EF.jac_Lp_hasDerivAt d Lp Lc St kT h1 h2 h3 h4 hd hr⟩
+    · exact ⟨fun v => EF.val d Lp v St kT, fun _ => rfl, EF.jac_Lc_hasDerivAt d Lp Lc St kT h1 h2 h3 h4 hd hr⟩
+    · exact ⟨fun v => EF.val d Lp Lc v kT, fun _ => rfl, EF.jac_St_hasDerivAt d Lp Lc St kT h1 h2 h3 h4 hd hr⟩
+    · exact ⟨fun v => EF.val d Lp Lc St v, fun _ => rfl, EF.jac_kT_hasDerivAt d Lp Lc St kT h1 h2 h3 h4 hd hr⟩
+    · simp only [List.length_cons, List.length_nil] at hi; omega
+  · intro f Lp Lc St kT h1 h2 h3 h4 hd hr J hJ
+    cases hJ
+    refine ⟨⟨_, rfl⟩, fun i hi => ?_⟩
+    rcases i with _ | _ | _ | _ | i
+    · exact ⟨fun v => ED.val f v Lc St kT, fun _ => rfl, ED.jac_Lp_hasDerivAt f Lp Lc St kT h1 h2 h3 h4 hd hr⟩
+    · exact ⟨fun v => ED.val f Lp v St kT, fun _ => rfl, ED.jac_Lc_hasDerivAt f Lp Lc St kT h1 h2 h3 h4 hd hr⟩
+    · exact ⟨fun v => ED.val f Lp Lc v kT, fun _ => rfl, ED.jac_St_hasDerivAt f Lp Lc St kT h1 h2 h3 h4 hd hr⟩
+    · exact ⟨fun v => ED.val f Lp Lc St v, fun _ => rfl, ED.jac_kT_hasDerivAt f Lp Lc St kT h1 h2 h3 h4 hd hr⟩
+    · simp only [List.length_cons, List.length_nil] at hi; omega
+
+/-- non-vacuity of `tree_jacobian_sound` (and once more of `tree_derivative_sound`):
+    `(odijk + distance offset).subtract_independent_offset()` at the defaults meets every hypothesis -/
+theorem demo_tree_hypotheses :
+    let m := M.off "m/f_offset" (M.add (M.base .odijkD ["m/Lp", "m/Lc", "m/St", "kT"]) (M.base .offset ["m/d_offset"]))
+    let p : List ℝ := [0.5, 40, 16, 1500, 4.11, 0.01]
+    m.countInv = 0 ∧ m.WF2 ∧ p.length = m.params.length ∧ LeafJacOK m 10 p ∧ LeafDerOK m 10 p := by
+  intro m p
+  have key : ∀ (P : M → ℝ → List ℝ → Prop),
+      P (M.base .odijkD ["m/Lp", "m/Lc", "m/St", "kT"]) (10 - 0.5) [40, 16, 1500, 4.11] →
+      P (M.base .offset ["m/d_offset"]) (10 - 0.5) [0.01] →
+      ∀ mi oi o pm, subIdx m.params (M.add (M.base .odijkD ["m/Lp", "m/Lc", "m/St", "kT"]) (M.base .offset ["m/d_offset"])).params = some mi →
+        indexOf m.params "m/f_offset" = some oi → p[oi]? = some o → pick mi p = some pm →
+        ∀ li ri pl pr, subIdx (M.add (M.base .odijkD ["m/Lp", "m/Lc", "m/St", "kT"]) (M.base .offset ["m/d_offset"])).params
+            (M.base .odijkD ["m/Lp", "m/Lc", "m/St", "kT"]).params = some li →
+          subIdx (M.add (M.base .odijkD ["m/Lp", "m/Lc", "m/St", "kT"]) (M.base .offset ["m/d_offset"])).params
+            (M.base .offset ["m/d_offset"]).params = some ri → pick li pm = some pl → pick ri pm = some pr →
+          P (M.base .odijkD ["m/Lp", "m/Lc", "m/St", "kT"]) (10 - o) pl ∧ P (M.base .offset ["m/d_offset"]) (10 - o) pr := by
+    intro P hP1 hP2 mi oi o pm h1 h2 h3 h4 li ri pl pr g1 g2 g3 g4
+    have e1 : mi = [1, 2, 3, 4, 5] := by
+      have : subIdx m.params (M.add (M.base .odijkD ["m/Lp", "m/Lc", "m/St", "kT"]) (M.base .offset ["m/d_offset"])).params
+          = some [1, 2, 3, 4, 5] := by decide
+      rw [this] at h1; exact (Option.some.inj h1).symm
+    have e2 : oi = 0 := by
+      have : indexOf m.params "m/f_offset" = some 0 := by decide
+      rw [this] at h2; exact (Option.some.inj h2).symm
+    subst e1 e2
+    have e3 : o = 0.5 := by simpa [p] using h3.symm
+    have e4 : pm = [40, 16, 1500, 4.11, 0.01] := by
+      simp [pick, p] at h4; exact h4.symm
+    subst e3 e4
+    have f1 : li = [0, 1, 2, 3] := by
+      have : subIdx (M.add (M.base .odijkD ["m/Lp", "m/Lc", "m/St", "kT"]) (M.base .offset ["m/d_offset"])).params
+          (M.base .odijkD ["m/Lp", "m/Lc", "m/St", "kT"]).params = some [0, 1, 2, 3] := by decide
+      rw [this] at g1; exact (Option.some.inj g1).symm
+    have f2 : ri = [4] := by
+      have : subIdx (M.add (M.base .odijkD ["m/Lp", "m/Lc", "m/St", "kT"]) (M.base .offset ["m/d_offset"])).params
+          (M.base .offset ["m/d_offset"]).params = some [4] := by decide
+      rw [this] at g2; exact (Option.some.inj g2).symm
+    subst f1 f2
+    have f3 : pl = [40, 16, 1500, 4.11] := by simp [pick] at g3; exact g3.symm
+    have f4 : pr = [0.01] := by simp [pick] at g4; exact g4.symm
+    subst f3 f4
+    exact ⟨hP1, hP2⟩
+  have hD1 := (leaf_der_ok ["m/Lp", "m/Lc", "m/St", "kT"]).1 (10 - 0.5) 40 16 1500 4.11 (by norm_num) (by norm_num) (by norm_num) (by norm_num)
+  have hD2 := (leaf_der_ok ["m/d_offset"]).2.2.1 (10 - 0.5) 0.01
+  have hJ1 := (leaf_jac_ok ["m/Lp", "m/Lc", "m/St", "kT"]).1 (10 - 0.5) 40 16 1500 4.11 (by norm_num) (by norm_num) (by norm_num) (by norm_num)
+  have hJ2 := (leaf_jac_ok ["m/d_offset"]).2.2.1 (10 - 0.5) 0.01
+  refine ⟨rfl, ?_, rfl, ?_, ?_⟩
+  · refine ⟨⟨?_, ?_⟩, ?_⟩
+    · show ["m/Lp", "m/Lc", "m/St", "kT"].Nodup; decide
+    · show ["m/d_offset"].Nodup; decide
+    · decide
+  · intro mi oi o pm h1 h2 h3 h4
+    exact ⟨fun li ri pl pr g1 g2 g3 g4 => key LeafJacOK hJ1 hJ2 mi oi o pm h1 h2 h3 h4 li ri pl pr g1 g2 g3 g4,
+      fun li ri pl pr g1 g2 g3 g4 => key LeafDerOK hD1 hD2 mi oi o pm h1 h2 h3 h4 li ri pl pr g1 g2 g3 g4⟩
+  · intro mi oi o pm h1 h2 h3 h4 li ri pl pr g1 g2 g3 g4
+    exact key LeafDerOK hD1 hD2 mi oi o pm h1 h2 h3 h4 li ri pl pr g1 g2 g3 g4
 
 end Verif.C13
